@@ -385,7 +385,10 @@ def call_graph_entry(name, G, tau, gamma, mode, nodes, seeds, rec, rho):
     """nodes: the labels in G's order.  Returns the entry point's return value."""
     EoN = eon()
     f = getattr(EoN, name)
-    kw = dict(tmin=0, tmax=TMAX, tcount=TCOUNT)
+    # the relations are invariant under a shift of the time axis: the start time varies with the scenario
+    # (0, a positive non-integer, a negative one); the report grid keeps its spacing
+    t0 = (0.0, 2.5, -1.5)[(len(seeds) + 2 * len(rec) + (1 if rho == 0.5 else 0)) % 3]
+    kw = dict(tmin=t0, tmax=t0 + TMAX, tcount=TCOUNT)
     base = mode.split("/")[0]
     if mode.endswith("/weighted"):
         kw.update(transmission_weight="w", recovery_weight="g")
